@@ -6,20 +6,20 @@
 P=$1; PATCH=$(readlink -f "$2"); TIER=${3:-quick}; TAG=${4:-$$}
 WT=/tmp/ev_wt_$TAG; EV=/tmp/ev_verif_$TAG
 D="$(cd "$(dirname "${BASH_SOURCE[0]}")/.." && pwd)"
-/root/mut/mkwt.sh $WT >/dev/null || exit 3
-if ! git -C $WT apply "$PATCH"; then echo "PATCH DOES NOT APPLY"; /root/mut/rmwt.sh $WT; exit 3; fi
+$D/tools/mut/mkwt.sh $WT >/dev/null || exit 3
+if ! git -C $WT apply "$PATCH"; then echo "PATCH DOES NOT APPLY"; $D/tools/mut/rmwt.sh $WT; exit 3; fi
 if git -C $WT diff --name-only | grep -q '\.px[di]$'; then
   git -C $WT diff --name-only | grep '\.pxd$' >/dev/null && find $WT/cherab -name '*.pyx' -exec touch {} +
 fi
-(cd $WT && /venv/bin/python setup.py build_ext --inplace -j16 > /tmp/ev_build_$TAG.log 2>&1) || { echo "MUTANT DOES NOT COMPILE"; tail -5 /tmp/ev_build_$TAG.log; /root/mut/rmwt.sh $WT; exit 3; }
+(cd $WT && /venv/bin/python setup.py build_ext --inplace -j16 > /tmp/ev_build_$TAG.log 2>&1) || { echo "MUTANT DOES NOT COMPILE"; tail -5 /tmp/ev_build_$TAG.log; $D/tools/mut/rmwt.sh $WT; exit 3; }
 mkdir -p $EV
 rsync -a --delete --exclude .git --exclude replays --exclude seeded --exclude .work/repo_build.json "$D"/ $EV/
 grep -rl "/repo" $EV/harness $EV/setup.sh 2>/dev/null | xargs -r sed -i -E "s#/repo([^a-zA-Z0-9_]|$)#$WT\\1#g"
 cd $EV
-timeout 3000 env PYTHONPATH=/root/wtsite CHERAB_WT=$WT VERIF_SEED=${VERIF_SEED:-0} ./check $P --tier $TIER > /tmp/ev_out_$TAG.log 2>&1
+timeout 3000 env PYTHONPATH=$D/tools/mut/wtsite CHERAB_WT=$WT VERIF_SEED=${VERIF_SEED:-0} ./check $P --tier $TIER > /tmp/ev_out_$TAG.log 2>&1
 RC=$?
 echo "exit=$RC"
 grep -E "^VIOLATION|^KNOWN-FINDING|^INFRA|FAILING INPUT|BROKEN" /tmp/ev_out_$TAG.log | cut -c1-300 | head -12
-/root/mut/rmwt.sh $WT >/dev/null 2>&1
+$D/tools/mut/rmwt.sh $WT >/dev/null 2>&1
 rm -rf $EV
 exit $RC
